@@ -73,8 +73,8 @@ COQ_LANG = {"py": "LPy", "ts": "LTs", "rs": "LRs", "cfg": "LOther"}
 # validated on every run by the cases in neutral locations)
 RAW = {
     "py": {"magic-numbers": [16], "print-statements": [15], "nesting": [14], "srp": [1, 6], "method-property": [2],
-           "stateless-class": [6], "file-placement": [1]},
-    "ts": {"magic-numbers": [3], "print-statements": [2], "file-placement": [1]},
+           "stateless-class": [6], "file-placement": [1], "dry": [1, 6, 10, 15, 18]},
+    "ts": {"magic-numbers": [3], "print-statements": [2], "file-placement": [1], "dry": [1]},
     "rs": {"magic-numbers": [3], "unwrap-abuse": [2], "clone-abuse": [12], "blocking-async": [7], "file-placement": [1]},
     "cfg": {"file-placement": [1]},
 }
@@ -83,7 +83,9 @@ RULE_ID = {"magic-numbers": "magic-numbers.numeric-literal", "print-statements":
            "clone-abuse": "clone-abuse.clone-in-loop", "blocking-async": "blocking-async.fs-in-async",
            "method-property": "method-property.should-be-property", "stateless-class": "stateless-class.violation",
            "file-placement": "file-placement"}
-CMDS = list(RULE_ID)
+CMDS = list(RULE_ID)           # the per-file commands drawn at random
+RULE_ID["dry"] = "dry.duplicate-code"   # cross-file: run on dedicated projects (gen_dry) whose duplicate partners are known
+DRY_CFG = {"enabled": True, "min_duplicate_lines": 3, "cache_enabled": False}
 BASE_CFG = {"nesting": {"max_nesting_depth": 2}, "srp": {"max_methods": 1}}
 
 NEUTRAL_DIRS = ["src", "lib", "app", "core", "pkg"]
@@ -199,6 +201,12 @@ def gen_invocations(r, project, n: int, cmd_cycle: list[str]) -> list[dict]:
             r.shuffle(inv["pick"])
         if cwd == "other":
             inv["cwd_pats"] = r.sample(CWD_PATS, r.choice([0, 1, 1, 2]))
+        if r.random() < 0.18:
+            # group-level --config in relative / absolute spelling, independent of the target spelling; mostly for the commands whose
+            # verdict depends on the project-relative path (file-placement rules, anchored repo ignore patterns)
+            inv["gcfg"] = r.choice(["rel", "rel", "abs"])
+            if r.random() < 0.6:
+                inv["cmd"] = "file-placement"
         out.append(inv)
     return out
 
@@ -242,13 +250,18 @@ def gen_matrix(seed: int, n_projects: int) -> list[dict]:
         for lang in ("py", "ts", "rs"):   # every command must have something to find
             if lang not in have:
                 project["files"].append({"rel": [r.choice(NEUTRAL_DIRS), "extra_" + lang + EXT[lang]], "tpl": lang})
+        dry_project = gen_dry_project(r)
         names = [r.choice(NEUTRAL_PARENTS)] + specials
         for li, nm in enumerate(names):
             invs = []
             for ci, cmd in enumerate(CMDS):
                 invs.append({"cwd": "home", "spelling": "abs", "target": "dir", "cmd": cmd})
+                if cmd in ("file-placement", "nesting"):   # relative group-level --config with an absolute target
+                    invs.append({"cwd": ["proj", "parent", "grand"][(i + li) % 3], "spelling": "abs", "target": "dir", "cmd": cmd, "gcfg": "rel"})
                 cwd, spelling, target = others[(i + li + ci) % len(others)]
                 inv = {"cwd": cwd, "spelling": spelling, "target": target, "cmd": cmd}
+                if cmd == "file-placement" and (i + li) % 2:
+                    inv["gcfg"] = "abs"
                 if target == "files":
                     inv["pick"] = list(range(len(project["files"])))
                 if cwd == "other":
@@ -268,6 +281,61 @@ def gen_matrix(seed: int, n_projects: int) -> list[dict]:
                 pinv["pick"] = list(range(len(project["files"])))
             groups.append({"id": f"p{i}.{li}", "via": "api", "pool": True, "project": project, "loc": {"parents": parents, "name": "proj"},
                            "invs": [pinv]})
+            # the cross-file rule at the same location: absolute spelling through the process pool, plus one rotating spelling
+            dcwd, dsp, dtg = par_spellings[(i + li + 1) % len(par_spellings)]
+            dinvs = [{"cwd": "home", "spelling": "abs", "target": "dir", "cmd": "dry", "parallel": 2},
+                     {"cwd": dcwd, "spelling": dsp, "target": dtg, "cmd": "dry", **({"parallel": 2} if (i + li) % 2 else {})}]
+            for dv in dinvs:
+                if dv["target"] == "files":
+                    dv["pick"] = list(range(len(dry_project["files"])))
+            groups.append({"id": f"d{i}.{li}", "via": "api", "pool": True, "project": dry_project, "loc": {"parents": parents, "name": "proj"},
+                           "invs": dinvs})
+    return groups
+
+
+def gen_dry_project(r, n_min: int = 6) -> dict:
+    """a project for the cross-file rule: dry enabled, every Python / TypeScript text has partners, no repo-level ignore patterns
+    (the rule's own ignore parser is rooted at the first processed file's directory - not modelled - and stays inert that way)"""
+    project = gen_project(r)
+    cfg = json.loads(project["extra"][".thailint.yaml"])
+    cfg.pop("ignore", None)
+    cfg["dry"] = dict(DRY_CFG)
+    project["lint_ign"] = {k: v for k, v in project["lint_ign"].items() if k != "dry"}
+    if r.random() < 0.5:
+        project["lint_ign"]["dry"] = r.sample(["lib/", "tests/", "src/", "test", "mod", "/src/", "proj/", "ok/", "util", "build/"], r.choice([1, 2]))
+        cfg["dry"]["ignore"] = project["lint_ign"]["dry"]
+    j = 0
+    while len(project["files"]) < n_min or sum(f["tpl"] == "py" for f in project["files"]) < 2 or sum(f["tpl"] == "ts" for f in project["files"]) < 2:
+        lang = ["py", "ts"][j % 2]
+        dirs = [r.choice(NEUTRAL_DIRS + SPECIAL_DIRS) for _ in range(r.choice([1, 1, 2]))]
+        project["files"].append({"rel": dirs + [f"{r.choice(STEMS[lang])}{j}{EXT[lang]}"], "tpl": lang})
+        j += 1
+    project["extra"] = {".thailint.yaml": json.dumps(cfg, indent=1)}
+    project["root_pats"] = []
+    rels = [tuple(f["rel"]) for f in project["files"]]
+    if any(a != b and b[:len(a)] == a for a in rels for b in rels):
+        return gen_dry_project(r, n_min)
+    return project
+
+
+def gen_dry_cli(seed: int, n_projects: int) -> list[dict]:
+    """real CLI `dry`, sequential and --parallel (>= 2 x default workers files), under excluded-name and marker-named parents"""
+    specials = special_parents()
+    from translator import items_pathloc
+    excl = [("pkg.egg-info" if "*" in d else d) for d in items_pathloc.tables_for_harness()["excluded_dirs"] if d != ".git"]
+    groups = []
+    for i in range(n_projects):
+        r = rng_for(seed, PROP, "dry", i)
+        project = gen_dry_project(r, n_min=17)
+        for li, nm in enumerate([r.choice(excl), r.choice(specials + NEUTRAL_PARENTS)]):
+            invs = []
+            for k, (cwd, spelling, target) in enumerate(r.sample([("home", "abs", "dir"), ("proj", "dot", "dir"), ("grand", "rel", "dir"),
+                                                                  ("other", "abs", "dir")], 2)):
+                inv = {"cwd": cwd, "spelling": spelling, "target": target, "cmd": "dry"}
+                if k == 0 or r.random() < 0.5:
+                    inv["parallel"] = True
+                invs.append(inv)
+            groups.append({"id": f"D{i}.{li}", "project": project, "loc": {"parents": [nm], "name": "proj"}, "invs": invs})
     return groups
 
 
@@ -325,10 +393,10 @@ def layout(S: Path, loc: dict, inv: dict):
     rel_from = {"proj": [], "parent": [loc["name"]], "grand": loc["parents"] + [loc["name"]],
                 "other": [".."] + loc["parents"] + [loc["name"]], "home": [".."] + loc["parents"] + [loc["name"]]}
     if inv["cwd"] == "sub":
-        return P, P.joinpath(*inv["sub"]), []
+        return P, P.joinpath(*inv["sub"]), (None if inv["spelling"] == "abs" else []), []
     cwd = {"proj": P, "parent": P.parent, "grand": S, "other": S / "other_cwd", "home": S / "home"}[inv["cwd"]]
     lead = None if inv["spelling"] == "abs" else rel_from[inv["cwd"]]
-    return P, cwd, lead
+    return P, cwd, lead, rel_from[inv["cwd"]]
 
 
 def chain_of(start: Path, markers) -> list[tuple[str, list[str]]]:
@@ -342,7 +410,7 @@ def chain_of(start: Path, markers) -> list[tuple[str, list[str]]]:
     return out
 
 
-def _api_invoke(cmd: str, targets: list[str], cwd: Path, parallel=None):
+def _api_invoke(cmd: str, targets: list[str], cwd: Path, parallel=None, gcfg=None):
     """what the CLI command does after click: detect the root from the first target, build the orchestrator, lint the targets as typed,
     keep the command's rule family.  In-process (forked worker, chdir) - used for the full name x command matrix; the CLI runs stay
     the authority for the glue."""
@@ -353,10 +421,16 @@ def _api_invoke(cmd: str, targets: list[str], cwd: Path, parallel=None):
     try:
         from src.cli.utils import execute_linting_on_paths, setup_base_orchestrator
         from src.linter_config.ignore import clear_ignore_parser_cache
+        from loguru import logger as _loguru
+        _loguru.remove()   # the CLI group configures logging (WARNING and above); without it loguru's default handler prints DEBUG lines
         os.chdir(cwd)
         clear_ignore_parser_cache()  # a fresh process has no cached parser
         path_objs = [Path(t) for t in targets]
-        orch = setup_base_orchestrator(path_objs, None, False, None)
+        root = None
+        if gcfg:
+            from src.cli.utils import _infer_root_from_config
+            root = _infer_root_from_config(gcfg, False)
+        orch = setup_base_orchestrator(path_objs, None, False, root)
         if parallel:
             # execute_linting_on_paths(parallel=True) with a small worker count, so that a handful of files already takes the
             # process-pool path (lint_files_parallel goes sequential below 2 x workers files)
@@ -394,7 +468,7 @@ def run_group(group: dict) -> list[dict]:
         # .git directory then, so that the project directory stays the detected root (deepest marker wins)
         _write(P, project, force_git=".git" in loc["parents"])
         for inv in group["invs"]:
-            _, cwd, lead = layout(S, loc, inv)
+            _, cwd, lead, rel_lead = layout(S, loc, inv)
             ign = other / ".thailintignore"
             if ign.exists():
                 ign.unlink()
@@ -426,19 +500,24 @@ def run_group(group: dict) -> list[dict]:
             else:
                 targets = [spell(given(f["rel"])) for f in files]
                 start = P.joinpath(*files[0]["rel"]).parent
+            gcfg = None
+            if inv.get("gcfg"):   # group-level `--config <project config>`: the project root is the config file's directory
+                gcfg = spell(given([".thailint.yaml"], lead=None if inv["gcfg"] == "abs" else rel_lead))
+                start = P
             if group.get("via") == "api":
-                rc, vs, so, se, swallowed = _api_invoke(inv["cmd"], targets, cwd, inv.get("parallel"))
+                rc, vs, so, se, swallowed = _api_invoke(inv["cmd"], targets, cwd, inv.get("parallel"), gcfg)
             else:
                 faillog = S / "faillog.jsonl"
                 if faillog.exists():
                     faillog.unlink()
-                args = [inv["cmd"], "--format", "json", *(["--parallel"] if inv.get("parallel") else []), *targets]
+                args = [*(["--config", gcfg] if gcfg else []), inv["cmd"], "--format", "json", *(["--parallel"] if inv.get("parallel") else []),
+                        *targets]
                 rc, so, se = run_cli(args, cwd=cwd, home=home, env_extra={"THAILINT_VERIF_FAILLOG": str(faillog)})
                 if rc == 124:  # timed out on a busy machine: one patient retry before calling it a failure
                     rc, so, se = run_cli(args, cwd=cwd, home=home, timeout=600, env_extra={"THAILINT_VERIF_FAILLOG": str(faillog)})
                 vs = parse_json_violations(so)
                 swallowed = faillog.read_text().splitlines()[:5] if faillog.exists() else []
-            rec = {"targets": targets, "cwd": str(cwd), "cwd_parts": list(cwd.parts[1:]), "chain": chain_of(start, markers),
+            rec = {"targets": targets, "group_config": gcfg, "cwd": str(cwd), "cwd_parts": list(cwd.parts[1:]), "chain": chain_of(start, markers),
                    "proj_depth": len(absP), "files": [], "unknown": [], "error": None, "swallowed": swallowed}
             if vs is None or rc not in (0, 1):
                 rec["error"] = f"rc={rc} stdout={so[:200]!r} stderr={se[-400:]!r}"
@@ -626,7 +705,9 @@ def run(tier: str, seed: int, replay: str | None = None) -> int:
                 "matrix of every special parent name x every command is additionally run in-process through the same functions the CLI commands call "
                 "(setup_base_orchestrator + execute_linting_on_paths after chdir), including working directories strictly inside the project "
                 "(`mod.py`, `../x/mod.py`, `.` in a sub-directory) and --parallel / lint_files_parallel variants (a project with >= 2 x workers "
-                "files through the CLI, 2 workers in-process). A case (= one invocation) is "
+                "files through the CLI, 2 workers in-process), the cross-file rule dry (dedicated projects with known duplicate partners, "
+                "sequential and parallel) and the group-level `--config <project config>` option in relative / absolute spelling combined "
+                "with every target spelling. A case (= one invocation) is "
                 "non-trivial when at least one targeted file has a finding of the command's rule in its text; distinct = distinct "
                 "(project, location, cwd, spelling, targets, command). Plus unit-level cases for project-root detection (marker layouts).")
     chk.trusted_base += [
@@ -659,7 +740,7 @@ def run(tier: str, seed: int, replay: str | None = None) -> int:
     else:
         n_projects, n_special, n_inv, n_matrix, n_par = (8, 2, 5, 2, 1) if tier == "quick" else (24, 7, 9, 20, 8)
         groups = (corpus_groups() + gen_groups(seed, n_projects * scale, n_special, n_inv) + gen_parallel_cli(seed, n_par * scale)
-                  + gen_matrix(seed, n_matrix * scale))
+                  + gen_dry_cli(seed, n_par * scale) + gen_matrix(seed, n_matrix * scale))
         root_cases = gen_root_cases(seed, (150 if tier == "quick" else 1500) * scale)
     t0 = _t.time()
     # groups whose in-process run starts a process pool of its own cannot live in daemonic pool workers: they get an executor
@@ -719,6 +800,8 @@ def run(tier: str, seed: int, replay: str | None = None) -> int:
         nontrivial = any(f["raw"] for f in rec["files"])
         chk.count(case_key, nontrivial)
         chk.dist("cmd:" + inv["cmd"])
+        if inv.get("gcfg"):
+            chk.dist("group-level --config: " + inv["gcfg"] + " spelling, target " + inv["spelling"])
         chk.dist("via:" + g.get("via", "cli") + (" --parallel / process pool" if inv.get("parallel") else ""))
         chk.dist(f"spelling:{inv['spelling']}/{inv['target']} from {inv['cwd']}")
         for pn in g["loc"]["parents"] + [g["loc"]["name"]]:
